@@ -33,6 +33,8 @@ def runs(tier):
         ("exterior weight map (associative map over a std::map while the graph's interior edge_weight property holds decoy values): G(4) x A3 double and int, G(5) x A2, 720 pseudo-random sparse graphs n=8..14 x 2 weightings",
          [["--n", 4, "--alpha", "A3", "--wmap", 1], ["--n", 4, "--alpha", "A3", "--wmap", 1, "--wtype", "int"], ["--n", 5, "--alpha", "A2", "--wmap", 1],
           ["--families", lcg_menu((8, 10, 12, 14), (1.3, 1.6, 2.0), 60), "--alpha", "R9x2", "--wmap", 1]]),
+        ("other build configurations of the library (config.hpp): PARMCB_LOGGING on, PARMCB_INVARIANTS_CHECK off: G(4) x A3, G(5) x A2, G(5) x U reversed orientation",
+         [[t, "--n", 4, "--alpha", "A3"] for t in ("@log", "@noinv")] + [[t, "--n", 5, "--alpha", "A2"] for t in ("@log", "@noinv")] + [["@log", "--n", 5, "--alpha", "U", "--orient", 1]]),
         ("G(5) with at most 7 edges x PM2 (every assignment of the distinct weights 2^0..2^(m-1): unique optimum, no ties that could mask a lost candidate)", [["--n", 5, "--alpha", "PM2", "--max-m", 7]]),
         ("weights with 26 significant bits (2^25 + {1,2,3}: competing cycles differ by units at magnitude 1e8): G(4) x B3 double and int, G(5) x B2 double",
          [["--n", 4, "--alpha", "B3"], ["--n", 4, "--alpha", "B3", "--wtype", "int"], ["--n", 5, "--alpha", "B2"]]),
@@ -75,18 +77,25 @@ def run(prop, tier):
                      "weights are integers or dyadic so double arithmetic in the oracle is exact",
                      "harness compiled with the shipped configuration (-O2 -DNDEBUG, PARMCB_INVARIANTS_CHECK on)"]
     binary = vlib.build("exact", "exact.cpp")
+    # the library's other build configurations (config.hpp options): logging on; invariant checks off
+    cfgbin = {"@log": vlib.build("exact_cfg_log", "exact.cpp", cfg=vlib.gen_config(logging=True)),
+              "@noinv": vlib.build("exact_cfg_noinv", "exact.cpp", cfg=vlib.gen_config(invariants=False))}
     c.builds_done()
     for bound, arglists in runs(tier):
         for args in arglists:
             rem = c.remaining()
-            r = vlib.run_harness(binary, list(args) + ["--props", prop, "--seed", vlib.seed(), "--deadline-s", int(rem)])
-            c.add_run(r, bound + " :: " + r["args"], classes, replay={"harness": "exact"})
+            tag = args[0] if args and str(args[0]).startswith("@") else None
+            if tag:
+                args = args[1:]
+            r = vlib.run_harness(cfgbin[tag] if tag else binary, list(args) + ["--props", prop, "--seed", vlib.seed(), "--deadline-s", int(rem)])
+            c.add_run(r, bound + ((" [build configuration %s]" % tag[1:]) if tag else "") + " :: " + r["args"], classes, replay={"harness": {"@log": "exact_cfg_log", "@noinv": "exact_cfg_noinv"}.get(tag, "exact")})
     return c.finish()
 
 
 def replay(prop, path):
     rp = vlib.load_replay(path)
-    binary = vlib.build("exact", "exact.cpp")
+    h = (rp.get("replay") or {}).get("harness", "exact")
+    binary = vlib.build(h, "exact.cpp", cfg=vlib.gen_config(logging=(h == "exact_cfg_log"), invariants=(h != "exact_cfg_noinv")))
     import subprocess
     p = subprocess.run([binary, "--replay-case", rp["case"], "--props", prop], stdout=subprocess.PIPE, text=True)
     print(p.stdout)
